@@ -236,7 +236,10 @@ impl Property for C05 {
             abs_hash: h.0,
             nontrivial,
         };
-        if a.unconstrained {
+        // OpLine/OpNoLine inside a function but outside a block: WHERE it is stored is unconstrained, but every
+        // other clause still holds (see below); a vendor opcode outside a block makes the whole run unjudged
+        let line_only = a.unconstrained && !a.unconstrained_insts.is_empty() && expect.is_ok();
+        if a.unconstrained && !line_only {
             cov.hit("reached.unconstrained_placement");
             return out(None);
         }
@@ -247,6 +250,53 @@ impl Property for C05 {
         };
         let opname = |k: usize| hist.get(k).map(|i| i.name()).unwrap_or_else(|| "end-of-stream".into());
         match (expect, res) {
+            (Ok(()), Ok(m)) if line_only => {
+                cov.hit("reached.line_outside_block_accepted");
+                // structural clauses on the real module as it is
+                for (fi, f) in m.functions.iter().enumerate() {
+                    if f.def.is_none() || f.end.is_none() {
+                        return out(Some(Violation::new("C05.function-owns-def-end", "line-outside-block".to_string(), hist.len(), format!("function {} lacks its defining or ending instruction", fi))));
+                    }
+                    for (bi, b) in f.blocks.iter().enumerate() {
+                        let model_insts: Vec<MInst> = b.instructions.iter().map(to_model).collect();
+                        let last_is_term = model_insts.last().map(|i| layout::class_of(i.opcode) == Lc::Terminator).unwrap_or(false);
+                        let inner_terms = model_insts.iter().rev().skip(1).filter(|i| layout::class_of(i.opcode) == Lc::Terminator).count();
+                        if b.label.is_none() || !last_is_term || inner_terms != 0 {
+                            return out(Some(Violation::new(
+                                "C05.block-ends-with-terminator",
+                                "line-outside-block".to_string(),
+                                hist.len(),
+                                format!("function {} block {} holds [{}]: it must own its label and end with a terminator that occurs nowhere else in it", fi, bi, model_insts.iter().map(show).collect::<Vec<_>>().join("; ")),
+                            )));
+                        }
+                    }
+                }
+                // everything except the unconstrained line instructions sits where the layout says
+                let mut real = module_to_model(&m);
+                let drop = |v: &mut Vec<MInst>| v.retain(|i| !a.unconstrained_insts.contains(i));
+                for sct in real.sections.iter_mut() {
+                    drop(sct);
+                }
+                for f in real.functions.iter_mut() {
+                    drop(&mut f.params);
+                    for b in f.blocks.iter_mut() {
+                        drop(&mut b.insts);
+                    }
+                }
+                let mut exp = a.module.clone();
+                for sct in exp.sections.iter_mut() {
+                    drop(sct);
+                }
+                for f in exp.functions.iter_mut() {
+                    for b in f.blocks.iter_mut() {
+                        drop(&mut b.insts);
+                    }
+                }
+                if let Some((wher, detail)) = diff_modules(&exp, &real, a.module.memory_models_seen > 1) {
+                    return out(Some(Violation::new("C05.placement", format!("line-outside-block {}", wher), hist.len(), detail)));
+                }
+                out(None)
+            }
             (Ok(()), Ok(m)) => {
                 cov.hit("reached.accepted");
                 let real = module_to_model(&m);
@@ -264,6 +314,11 @@ impl Property for C05 {
                         .unwrap_or_else(|| "?".into());
                     return out(Some(Violation::new("C05.placement", format!("op={} {}", culprit, wher), t.insts.len(), detail)));
                 }
+                out(None)
+            }
+            (Ok(()), Err(_)) if line_only => {
+                // rejecting a line instruction outside a block would be a legitimate policy too
+                cov.hit("reached.unconstrained_placement");
                 out(None)
             }
             (Ok(()), Err(e)) => {
